@@ -1373,10 +1373,15 @@ def _g_dns(r, hostile):
               + r.randbytes(20 if not hostile else r.pick([20, 0, 19])))
       else:
         rd = r.randbytes(r.pick([0, 1, 7, 40, 255]))
+      cls = r.pick([1, 1, 1, 0x8001, 255, 254])
+      if r.chance(0.12):
+        # RFC 2136 update / prerequisite records: no rdata at all
+        rd = b""
+        cls = r.pick([254, 255, 255, 1])
       rdl = len(rd)
       if hostile and r.chance(0.3):
         rdl = r.pick([0, 1, len(rd) + 1, len(rd) + 200, 0xffff])
-      body += name + struct.pack("!HHIH", t, r.pick([1, 1, 0x8001, 255]),
+      body += name + struct.pack("!HHIH", t, cls,
                                  r.pick([0, 300, 0xffffffff]), rdl) + rd
   if hostile and r.chance(0.4):
     counts[r.randrange(3)] += r.pick([1, 50, 0xfff0])
